@@ -79,6 +79,10 @@ HARNESSES = [
     for r in ["whitespace", "line_comment", "block_comment", "number", "identifier", "string", "var_name", "code",
               "hash"]
 ] + [
+] + [
+    H(f"c01c02c17_lex_na_{n}", ["C01", "C02", "C17"], weight=25, timeout=600)
+    for n in ["string", "line_comment", "block_comment", "code"]
+] + [
     H("c14c20_lex_bang_words_q", ["C14", "C20"], weight=80),
     H("c14c20_lex_keyword_words_q", ["C14", "C20"], weight=80),
 ] + [
